@@ -266,13 +266,18 @@ def stream_rows(run, profile, name, cases, docs, outs):
 def check(run):
     rng = random.Random(run.seed * 7919 + 12)
     thorough = run.tier == 'thorough'
-    common.prove(run, 'C12', ['model/C12Flex.vo', 'model/C12FlexLines.vo', 'model/C12FlexSpec.vo', 'model/C12Grid.vo'])
+    common.prove(run, 'C12', ['model/C12Flex.vo', 'model/C12FlexLines.vo', 'model/C12FlexSpec.vo', 'model/C12Grid.vo',
+                              'proofs/C12_gen_grid_base.vo', 'proofs/C12_gen_grid_place.vo',
+                              'proofs/C12_gen_grid_children.vo'])
     run.trusted += ['Coq 8.16.1 kernel (coqc); vm_compute for the cases.v evaluation',
                     'harness/p_c12.py, p_c12grid.py: translation of the generated CSS into model inputs (used flex basis, '
                     'min/max, outer extras, line numbers, track lists) and of rendered boxes into judge inputs',
                     'monitors flex-monitor-wrap / flex-monitor-cross / grid-monitor are judged in Python']
     run.assumptions += ['hand-written models (C12Flex, C12FlexLines, C12Grid) are tied to flex.py / grid.py by render '
-                        'correspondence only (tolerance 1e-6 px, integer/dyadic inputs), not by the translator',
+                        'correspondence (tolerance 1e-6 px, integer/dyadic inputs); by the translator only the grid '
+                        'placement helpers _intersect, _intersect_with_children, _get_span, _get_line, _get_placement '
+                        '(gen/GenGrid.v, theorems C12_source_*), for grid lines without names: the named-line searches '
+                        'are printed as "%unsupported" calls and proved unreachable there',
                         'flex theorems assume 0 <= flex-grow, 0 <= flex-shrink, 0 <= base, min <= max (the parser accepts '
                         'negative factors: reported)',
                         'cross-axis sizing/alignment (steps 7-16), rtl, intrinsic (content-based) flex bases and grid '
